@@ -89,6 +89,12 @@ Theorem C02_distinct_positions :
      pos (CRN size (Some m)) l1 = Ok p1 -> pos (CRN size (Some m)) l2 = Ok p2 -> p1 <> p2).
 Proof. split; [exact distinct_positions_nocrn | exact distinct_positions_crn]. Qed.
 
+(* the correspondence checks [map_wf] on every registered map it sees (initial map and after every registration):
+   such maps give distinct simulants distinct block elements *)
+Theorem C02_checked_maps_distinct : forall size m l1 l2 p1 p2, map_wf size m = true -> l1 <> l2 ->
+  pos (CRN size (Some m)) l1 = Ok p1 -> pos (CRN size (Some m)) l2 = Ok p2 -> p1 <> p2.
+Proof. exact map_wf_distinct. Qed.
+
 (* changing EXACTLY ONE of decision point, clock, additional key, seed changes the seed string - no guard *)
 Theorem C02_seedkey_single_change : forall a b, differ_in_one a b = true -> seed_string a <> seed_string b.
 Proof. exact single_change. Qed.
@@ -236,6 +242,7 @@ Print Assumptions C02_sample_from_distribution.
 Print Assumptions C02_unit_interval.
 Print Assumptions C02_crn_init_positional.
 Print Assumptions C02_distinct_positions.
+Print Assumptions C02_checked_maps_distinct.
 Print Assumptions C02_seedkey_single_change.
 Print Assumptions C02_seedkey_injective_partial.
 Print Assumptions C02_seedkey_alias_refuted.
